@@ -173,8 +173,8 @@ Hypothesis keys0 : NoDup (List.map fst (v_dirs s0)).
 Lemma Inv_start : Inv s0.
 Proof.
   constructor; auto.
-  - intros k. apply sub_refl.
-  - intros c H _. apply GL_nz, H.
+  all: try (intros k; apply sub_refl).
+  all: try (intros c H _; apply GL_nz, H).
 Qed.
 (* a cluster that is free NOW was free at the start or belongs to a target chain *)
 Lemma Inv_free s c : Inv s -> get (ftbl (v_fat s)) c = 0 -> Amod c.
@@ -233,6 +233,13 @@ Proof.
   - cbn [set_items v_dirs]. apply NoDup_put, I.
 Qed.
 
+Lemma get_dir_put f s c d k : k <> c -> get_dir {| v_fat := f; v_dirs := put_dir (v_dirs s) c d |} k = get_dir s k.
+Proof. intros H. unfold get_dir. cbn [v_dirs]. rewrite find_put_other by exact H. reflexivity. Qed.
+Lemma get_dir_put_same f s c d : get_dir {| v_fat := f; v_dirs := put_dir (v_dirs s) c d |} c = d.
+Proof. unfold get_dir. cbn [v_dirs]. rewrite find_put_same. reflexivity. Qed.
+Lemma get_dir_drop f s c k : k <> c -> get_dir {| v_fat := f; v_dirs := drop_dir (v_dirs s) c |} k = get_dir s k.
+Proof. intros H. unfold get_dir. cbn [v_dirs]. rewrite find_drop_other by exact H. reflexivity. Qed.
+
 Theorem ok_step_inv s m : Inv s -> ok_step s m -> Inv (apply_m s m).
 Proof.
   intros I Ok. destruct m as [c v|c v|c|c|id key a sz cl|id key|id keep tail|id|c|c v|c v|c]; cbn [Model.apply_m ok_step] in *.
@@ -253,30 +260,38 @@ Proof.
     unfold lives_of. rewrite <- lives_app, firstn_skipn. reflexivity.
   - apply Inv_set_items; [exact I|]. rewrite lives_filter_live. apply I.
   - destruct Ok as [Dc E0]. constructor; try apply I; unfold reg_dir.
-    + intros k. unfold lives_of, items_of, get_dir. cbn [v_dirs]. destruct (N.eq_dec k c) as [->|H].
-      * rewrite find_put_same. fold (lives_of s0 c). rewrite E0. cbn. apply sub_refl.
-      * rewrite find_put_other by exact H. apply (iv_ents _ I k).
-    + intros k H1 H2. unfold get_dir at 1 3. cbn [v_dirs]. rewrite find_put_other by (intros ->; contradiction). apply (iv_dots _ I); assumption.
-    + intros k H1. unfold get_dir at 1. cbn [v_dirs]. rewrite find_put_other by (intros ->; contradiction). apply (iv_dot _ I); assumption.
+    + intros k. destruct (N.eq_dec k c) as [->|H].
+      * assert (E : lives_of {| v_fat := v_fat s; v_dirs := put_dir (v_dirs s) c empty_dir |} c = [])
+          by (unfold lives_of, items_of, get_dir; cbn [v_dirs]; rewrite find_put_same; reflexivity).
+        rewrite E, E0. apply sub_refl.
+      * assert (E : lives_of {| v_fat := v_fat s; v_dirs := put_dir (v_dirs s) c empty_dir |} k = lives_of s k)
+          by (unfold lives_of, items_of, get_dir; cbn [v_dirs]; rewrite find_put_other by exact H; reflexivity).
+        rewrite E. apply (iv_ents _ I k).
+    + intros k H1 H2. rewrite get_dir_put by (intros ->; contradiction). apply (iv_dots _ I); assumption.
+    + intros k H1. rewrite get_dir_put by (intros ->; contradiction). apply (iv_dot _ I); assumption.
     + cbn [v_dirs]. apply NoDup_put, I.
   - constructor; try apply I; unfold set_dot.
     + intros k. rewrite lives_set_dirs by reflexivity. apply I.
-    + intros k H1 H2. unfold get_dir at 1 3. cbn [v_dirs]. rewrite find_put_other by (intros ->; contradiction). apply (iv_dots _ I); assumption.
-    + intros k H1. unfold get_dir at 1. cbn [v_dirs]. rewrite find_put_other by (intros ->; contradiction). apply (iv_dot _ I); assumption.
+    + intros k H1 H2. rewrite get_dir_put by (intros ->; contradiction). apply (iv_dots _ I); assumption.
+    + intros k H1. rewrite get_dir_put by (intros ->; contradiction). apply (iv_dot _ I); assumption.
     + cbn [v_dirs]. apply NoDup_put, I.
   - constructor; try apply I; unfold set_dotdot.
     + intros k. rewrite lives_set_dirs by reflexivity. apply I.
-    + intros k H1 H2. unfold get_dir at 1 3. cbn [v_dirs]. rewrite find_put_other by (intros ->; tauto). apply (iv_dots _ I); assumption.
-    + intros k H1. unfold get_dir at 1. cbn [v_dirs]. destruct (N.eq_dec k c) as [->|H].
-      * rewrite find_put_same. cbn [d_dot]. apply (iv_dot _ I); assumption.
-      * rewrite find_put_other by exact H. apply (iv_dot _ I); assumption.
+    + intros k H1 H2. rewrite get_dir_put by (intros ->; tauto). apply (iv_dots _ I); assumption.
+    + intros k H1. destruct (N.eq_dec k c) as [->|H].
+      * rewrite get_dir_put_same. cbn [d_dot]. apply (iv_dot _ I); assumption.
+      * rewrite get_dir_put by exact H. apply (iv_dot _ I); assumption.
     + cbn [v_dirs]. apply NoDup_put, I.
   - destruct Ok as [Dc E0]. constructor; try apply I; unfold drop.
-    + intros k. unfold lives_of, items_of, get_dir. cbn [v_dirs]. destruct (N.eq_dec k c) as [->|H].
-      * rewrite find_drop_same by apply I. fold (lives_of s0 c). rewrite E0. cbn. apply sub_refl.
-      * rewrite find_drop_other by exact H. apply (iv_ents _ I k).
-    + intros k H1 H2. unfold get_dir at 1 3. cbn [v_dirs]. rewrite find_drop_other by (intros ->; contradiction). apply (iv_dots _ I); assumption.
-    + intros k H1. unfold get_dir at 1. cbn [v_dirs]. rewrite find_drop_other by (intros ->; contradiction). apply (iv_dot _ I); assumption.
+    + intros k. destruct (N.eq_dec k c) as [->|H].
+      * assert (E : lives_of {| v_fat := v_fat s; v_dirs := drop_dir (v_dirs s) c |} c = [])
+          by (unfold lives_of, items_of, get_dir; cbn [v_dirs]; rewrite find_drop_same by apply I; reflexivity).
+        rewrite E, E0. apply sub_refl.
+      * assert (E : lives_of {| v_fat := v_fat s; v_dirs := drop_dir (v_dirs s) c |} k = lives_of s k)
+          by (unfold lives_of, items_of, get_dir; cbn [v_dirs]; rewrite find_drop_other by exact H; reflexivity).
+        rewrite E. apply (iv_ents _ I k).
+    + intros k H1 H2. rewrite get_dir_drop by (intros ->; contradiction). apply (iv_dots _ I); assumption.
+    + intros k H1. rewrite get_dir_drop by (intros ->; contradiction). apply (iv_dot _ I); assumption.
     + cbn [v_dirs]. apply keys_drop_nodup, I.
 Qed.
 
@@ -313,8 +328,8 @@ Definition ok_fat (m : mstep) : Prop :=
 Lemma good_fat l : Forall ok_fat l -> forall s, good s l.
 Proof.
   induction 1 as [|m r Hm _ IH]; intros s; [exact I|]. split; [|apply IH].
-  destruct m; try destruct Hm; cbn [ok_step ok_fat] in *; auto.
+  destruct m; cbn [ok_step ok_fat] in *; try contradiction; auto.
 Qed.
 Lemma ok_fat_set c v : Amod c \/ (In c GL /\ v <> 0) -> Forall ok_fat (fat_set c v).
-Proof. intros H. repeat constructor. exact H. Qed.
+Proof. intros H. constructor; [exact I|]. constructor; [exact H|constructor]. Qed.
 End Inv.
